@@ -33,6 +33,7 @@ fn login_line(c: &Case) -> String {
         Err(LoginFail::Panic(stage, _)) => format!("panic@{stage}"),
         Err(LoginFail::Refused(stage, _)) => format!("refused@{stage}"),
         Err(LoginFail::Rng(m)) => format!("rng-mismatch {m}"),
+        Err(LoginFail::Redrawn) => "skipped: the library draws again for a degenerate scripted value".to_string(),
     };
     format!("{id}\t{}\t{}", obs(false), obs(true))
 }
